@@ -871,6 +871,13 @@ func (r *efRun) checkRedef(p *PState, v ssa.Value) {
 	if len(errResultIdx(r.fn.Signature)) == 0 && s.tested[v] {
 		return
 	}
+	// the value was produced and tested inside a new helper that has no error result (a predicate such as
+	// hasValidHeader): handled locally there, as it would be if the helper were analysed on its own
+	if ins, isIns := v.(ssa.Instruction); isIns && s.tested[v] {
+		if pf := ins.Parent(); pf != nil && pf != r.fn && theCtx.IsNew(pf) && len(errResultIdx(pf.Signature)) == 0 {
+			return
+		}
+	}
 	kind := "EF-IO-OVERWRITTEN"
 	if len(s.defined[v]) == 0 {
 		kind = "EF-DROP"
@@ -1090,6 +1097,11 @@ func (r *efRun) exit(p *PState, ins ssa.Instruction) {
 			}
 			if !hasErrResult && s.tested[v] {
 				continue // function without error result: tested and handled locally
+			}
+			if vi, isIns := v.(ssa.Instruction); isIns && s.tested[v] {
+				if pf := vi.Parent(); pf != nil && pf != r.fn && theCtx.IsNew(pf) && len(errResultIdx(pf.Signature)) == 0 {
+					continue // the same for a new helper without error result that the walk stepped through
+				}
 			}
 			strict := false
 			if r.strictRead {
